@@ -138,6 +138,8 @@ def run(rep, facts, tier):
 
     rule_split_and_placement(rep, fx)
     rule_size_slice_agreement(rep, fx)
+    rule_05_10(rep, fx)
+    rule_frag_amount(rep, fx, 'R05.11')
 
 
 def rule_split_and_placement(rep, fx):
@@ -334,3 +336,76 @@ def rule_size_slice_agreement(rep, fx):
     ok2 = len(set(lens)) == 1 and len(set(clamps)) == 1 and lens[0] == clamps[0]
     rep.check(ok2, 'R05.8', 'SerializedPayload/len-vs-clamp', 'len_serialized() = the clamp of bytes_slice(): header + value length',
               'SerializedPayload::len_serialized() and the upper clamp of SerializedPayload::bytes_slice() are different expressions', ls.where())
+
+
+def rule_05_10(rep, fx):
+    """A buffer that is still receiving fragments is not thrown away: staleness is measured from the last fragment, which every recorded fragment refreshes."""
+    rep.rule('R05.10', 'stale-buffer clean-up: garbage_collect_before keeps a buffer iff its modified_time >= the expiry bound (not the creation time), and insert_frags sets '
+                       'modified_time := now on every path that records a fragment')
+    gc = fx.find(FA + 'FragmentAssembler::garbage_collect_before')
+    cl = fx.closures_of(gc, transitive=False)
+    rep.analysed(gc, *cl)
+    okg = False
+    why = 'no retain closure'
+    for c in cl:
+        ogc = Origins(c)
+        rets = c.return_blocks()
+        rv = ogc.of_local(0, rets[0], 'term') if rets else ('unknown',)
+        cmp_ = []
+        term_has(rv, lambda x: x[0] == 'call' and x[1].rsplit('::', 1)[-1] in ('ge', 'gt', 'le', 'lt') and cmp_.append(x))
+        if cmp_:
+            x = cmp_[0]
+            op = x[1].rsplit('::', 1)[-1]
+            a, b_ = x[2]
+            mod_a, mod_b = has_field(a, 'modified_time'), has_field(b_, 'modified_time')
+            crt = has_field(a, 'created_time') or has_field(b_, 'created_time')
+            okg = not crt and ((op == 'ge' and mod_a and not mod_b) or (op == 'le' and mod_b and not mod_a))
+            why = term_str(rv)[:80]
+    rep.check(okg, 'R05.10', 'garbage_collect_before/by-last-update', 'retain iff modified_time >= expire_before',
+              'garbage_collect_before does not keep exactly the buffers updated at or after the expiry bound (%s): a sample whose fragments keep arriving is dropped half way and never completes' % why, gc.where())
+    ins = fx.find(FA + 'AssemblyBuffer::insert_frags')
+    P = Pos(ins)
+    stores = [(bb, si) for bb, si, st in ins.statements() if st['s'] == 'assign' and (st['lhs'].get('p') or []) and isinstance(st['lhs']['p'][-1], dict) and st['lhs']['p'][-1].get('n') == 'modified_time']
+    copies = [(bb, 'term') for bb, t in ins.calls() if callee_res(t).endswith('copy_from_slice')]
+    oki = bool(stores) and bool(copies)
+    for c in copies:
+        for r in ins.return_blocks():
+            if P.can_reach(c, (r, 'term'), avoid_pos=stores):
+                oki = False
+    rep.check(oki, 'R05.10', 'insert_frags/refreshes-modified-time', 'modified_time := now after every recorded fragment',
+              'insert_frags can record a fragment without refreshing modified_time: a buffer in use looks stale to the clean-up', ins.where())
+
+
+def rule_frag_amount(rep, fx, rid):
+    """Bytes copied and fragments marked must describe the same part of the sample (shared: C05 R05.11, C01 R01.10)."""
+    from rdv.poly import poly, freeze, atom
+    rep.rule(rid, 'amount copied = amount marked: insert_frags copies min(fragments_in_submessage * frag_size, payload length) bytes (clamped to the buffer) and marks exactly '
+                  'fragments_in_submessage bits, the same count on both sides; a DATAFRAG carrying several fragments contributes all their bytes')
+    ins = fx.find(FA + 'AssemblyBuffer::insert_frags')
+    rep.analysed(ins)
+    og = Origins(ins, summaries=False)
+    copies = [(bb, t) for bb, t in ins.calls() if callee_res(t).endswith('copy_from_slice')]
+    ok = len(copies) == 1
+    why = ''
+    if ok:
+        bb, t = copies[0]
+        dst = og.of_operand(t['args'][0], bb, 'term')
+        # the end of the destination range
+        ends = []
+        term_has(dst, lambda x: x[0] == 'agg' and str(x[1]).endswith('ops::Range') and len(x[2]) == 2 and ends.append(x[2][1]))
+        ok = bool(ends)
+        if ok:
+            e = ends[0]
+            prods = []
+            term_has(e, lambda x: x[0] == 'bin' and x[1].startswith('Mul') and prods.append(x))
+            good = [p_ for p_ in prods if any(term_has(a, lambda y: y[0] == 'field' and y[1] == 'fragments_in_submessage') for a in (p_[2], p_[3])) and
+                    any(term_has(a, lambda y: y == ('param', 3)) for a in (p_[2], p_[3]))]
+            mins = []
+            term_has(e, lambda x: x[0] == 'call' and x[1].endswith('cmp::min') and mins.append(x))
+            with_len = any(any(term_has(a, lambda y: y[0] == 'call' and y[1].endswith('::len') and term_has(y, lambda z: z[0] == 'field' and z[1] == 'serialized_payload')) for a in m[2]) and
+                           any(term_has(a, lambda y: y in good) for a in m[2]) for m in mins)
+            ok = bool(good) and with_len
+            why = term_str(e)[:140]
+    rep.check(ok, rid, 'insert_frags/amount', 'copies min(fragments_in_submessage * frag_size, payload len) bytes',
+              'insert_frags does not copy fragments_in_submessage * frag_size bytes (payload length permitting) while it marks fragments_in_submessage fragments as received (%s): a DATAFRAG '
+              'with several fragments completes the sample with part of its bytes never written' % why, ins.where())
